@@ -254,8 +254,8 @@ func WorkerMain(t *testing.T, p Property) {
 			}
 			seed := *fSeed0 + int64(i)**fStride
 			emit(map[string]any{"start": seed, "config": cfg})
-			r := RunOne(t, NewTape(seed), cfg, false, p.Build(cfg))
-			if r.Class == "" {
+			r := RunOne(t, NewTape(seed), cfg, *fTrace, p.Build(cfg))
+			if r.Class == "" && !*fTrace {
 				r.Trace = nil
 				if i%97 != 0 {
 					r.Desc = nil
